@@ -14,6 +14,8 @@ CLAIMED = {
    text="Proof: 38 kernel-checked theorems about the executable model of values.rs/base.rs numerics (exact results equal the value in Q for ALL operands, never a wrong exact number, representation invariant preserved by every operation sequence, division by exact zero is an error, floor/ceiling/floor-quotient/floor-remainder specs, inexact contagion). The model is tied to the code by running every operation of a 76-expression operand grid (all pairs, triples of a sub-grid) on the real interpreter and on the model and comparing bit-for-bit, and by an independent exact-rational oracle on the implementation."),
  "C10": dict(design="5/C10", technique="Lean 4 theorems (order iff order in Q, chain = conjunction of adjacent pairs, max/min extreme + contagion, eqv? iff same exactness and value) about RuschmModel/Num.lean + exhaustive pair/triple correspondence + exact-rational oracle",
    text="Proof: 19 kernel-checked theorems (lt/gt/le/ge/eq iff the order of the values in Q for all exact operands with positive denominators; mixed comparisons are the binary32 comparison of the converted operands; n-ary chains are the conjunction of adjacent pairs; max/min return an argument that is extreme and are inexact iff some argument is; eqv? on well-formed numbers iff same exactness and equal value). Tie: all ordered pairs of the operand grid and triples of a sub-grid under = < > <= >= max min eqv?, real interpreter vs model vs exact rationals."),
+ "C06": dict(design="5/C06", technique="Lean 4 theorems (per-class lexing round trips, atmosphere skipping, layout invariance lex_render, boundaries_at_delimiters, totality) about RuschmModel/Lex.lean,Read.lean + exhaustive short-string and random tree/layout correspondence + boundary oracle",
+   text="Proof: kernel-checked theorems about the executable model of lexer.rs and the reader half of parser.rs: every supported token class lexes back to itself before a delimiter (incl. parseI32 (show i) = i for all i32), any atmosphere is skipped, LAYOUT INVARIANCE lex_render for every token list and every valid layout, tokens end only at delimiters (with the documented '#'-after-boolean/character residue, a known finding pinned by the repository's tests), the lexer is total. Tie: every string of length <= 4 over 17 structural characters (lexer and reader, tokens with locations) and random datum trees under random layouts, real code vs model vs the tree rendered."),
 }
 
 NOT_YET = "check not built yet (work in progress; DESIGN.md section 10 gives the order of work)"
